@@ -309,7 +309,7 @@ def drive(h, prog, replies, flags=(False, False), breaks=None, inspect=None, rng
 
 
 INSPECT = ["PRINT FNO(0)", "PRINT FNT(2)", "PRINT FNO(1) + FNO(0)", "PRINT FNA(FNO(0))", "PRINT FNS$(1)", "PRINT A;B;X", "PRINT 1/0", "? A$", "PRINT FNA(3)", "PRINT FNA(1/0)", "PRINT N(1)", "REM look", "PRINT (", "PRINT Z9 +",
-           "IF 1 THEN PRINT I", "PRINT F(3)", "PRINT SQ(2)", "PRINT \"x\" + 1", "IF 0 THEN PRINT 1 ELSE PRINT J", "PRINT ABS(-K)", "PRINT FNR(1)", "PRINT FNA(FNR(2))"]
+           "IF 1 THEN PRINT I", "PRINT Z8(3)", "PRINT Z9$(2)", "PRINT \"x\" + 1", "IF 0 THEN PRINT 1 ELSE PRINT J", "PRINT ABS(-K)", "PRINT FNR(1)", "PRINT FNA(FNR(2))"]
 
 
 # programs whose continuation is sensitive to anything an inspection might leave behind: a function frame (the
@@ -402,6 +402,11 @@ def run_c07(chk):
             eva = [e for e in events([row for _, row in a.ops[sa:]]) if e[0] != "B"]
             evb = [e for e in events([row for _, row in b.ops[sb:]]) if e[0] != "B"]
             chk.count("assign-at-stop")
+            if not (a.state == "Idle" and b.state == "Idle"):
+                # one of the two runs was cut off by the turn budget (the STOP version spends extra calls): compare what both reached
+                m = min(len(eva), len(evb))
+                eva, evb = eva[:m], evb[:m]
+                chk.count("assign-at-stop:cut-off")
             if eva != evb:
                 chk.fail("assign-at-stop", f"{v} = {val} at STOP in line {no - 1}: {evb[:6]!r:.200} vs in-place {eva[:6]!r:.200}", session_replay(b))
             sessions.append(b.ops)
